@@ -110,30 +110,6 @@ TABLE = [
 ]
 
 
-def stable_name(b):
-    return b.j.get("vis") in ("pub", "crate") or "trait" in b.j.get("impl", {})
-
-
-def stable_ancestors(F, k, cone_keys):
-    """functions with a stable (non-private) name from which the private function k is reached on the cone"""
-    from rules_problem2 import local_callers
-    out, seen, work = set(), set(), [F.bodies[k].j.get("root", k)]
-    first = work[0]
-    while work:
-        x = work.pop()
-        if x in seen or x not in F.bodies:
-            continue
-        seen.add(x)
-        if x != first and stable_name(F.bodies[x]):
-            out.add(x)
-            continue
-        callers = set(c for c in local_callers(F).get(x, ()) if c in cone_keys and c != x)
-        if not callers and x != first:
-            out.add(x)
-        work.extend(callers)
-    return out
-
-
 def roles_of(F, k):
     b = F.bodies[k]
     roles = set()
